@@ -724,6 +724,11 @@ def main():
     if ev['coverage']['states'] < 1:
         ev['coverage']['states'] = 1 if False else ev['coverage']['states']
     json.dump(ev, open(evid_path, 'w'), indent=1, default=str)
+    if tier == 1 and not os.environ.get('VERIF_EVIDENCE_DIR') and not a.only:
+        # keep the last complete thorough-tier evidence next to the (later overwritten) per-run file
+        td = os.path.join(VERIF, 'evidence_thorough')
+        os.makedirs(td, exist_ok=True)
+        json.dump(ev, open(os.path.join(td, prop + '.json'), 'w'), indent=1, default=str)
     print('%s tier=%s: %d harnesses, %d paths, %d/%d obligations discharged, %d inconclusive, %d violation(s), '
           '%d known, validation %d ok / %d mismatch, %.1fs (solver %.1fs)'
           % (prop, a.tier, len(per_root), tot['paths'], tot['discharged'], tot['obligations'], tot['inconclusive'],
